@@ -48,19 +48,25 @@ type Value struct {
 // Normalise applies the wire format's own normalisations to a value about to be sent,
 // yielding what the receiver must see: deprecated message fields dropped, nil == empty,
 // dates reduced to ticks in UTC.
-func Normalise(s *schema.Schema, t schema.Type, v Value) Value {
+func Normalise(s *schema.Schema, t schema.Type, v Value) Value { return normalise(s, t, v, true) }
+
+// Canon is Normalise for a value that was received: deprecated fields are a sender-side
+// matter (they are never put on the wire); whatever arrived is kept.
+func Canon(s *schema.Schema, t schema.Type, v Value) Value { return normalise(s, t, v, false) }
+
+func normalise(s *schema.Schema, t schema.Type, v Value, dropDep bool) Value {
 	switch {
 	case t.Array != nil:
 		out := Value{}
 		for _, e := range v.Elems {
-			out.Elems = append(out.Elems, Normalise(s, *t.Array, e))
+			out.Elems = append(out.Elems, normalise(s, *t.Array, e, dropDep))
 		}
 		return out
 	case t.MapV != nil:
 		out := Value{}
 		for i := range v.Keys {
-			out.Keys = append(out.Keys, Normalise(s, schema.Type{Prim: t.MapK}, v.Keys[i]))
-			out.Vals = append(out.Vals, Normalise(s, *t.MapV, v.Vals[i]))
+			out.Keys = append(out.Keys, normalise(s, schema.Type{Prim: t.MapK}, v.Keys[i], dropDep))
+			out.Vals = append(out.Vals, normalise(s, *t.MapV, v.Vals[i], dropDep))
 		}
 		return out
 	case t.Prim == "date":
@@ -92,7 +98,7 @@ func Normalise(s *schema.Schema, t schema.Type, v Value) Value {
 		out := Value{}
 		for i, f := range d.Fields {
 			if i < len(v.Elems) {
-				out.Elems = append(out.Elems, Normalise(s, f.Type, v.Elems[i]))
+				out.Elems = append(out.Elems, normalise(s, f.Type, v.Elems[i], dropDep))
 			}
 		}
 		return out
@@ -100,10 +106,10 @@ func Normalise(s *schema.Schema, t schema.Type, v Value) Value {
 		out := Value{}
 		for _, mf := range v.Fields {
 			fd := msgField(d, mf.Index)
-			if fd == nil || fd.Deprecated {
+			if fd == nil || (fd.Deprecated && dropDep) {
 				continue
 			}
-			out.Fields = append(out.Fields, MsgField{Index: mf.Index, V: Normalise(s, fd.Type, mf.V)})
+			out.Fields = append(out.Fields, MsgField{Index: mf.Index, V: normalise(s, fd.Type, mf.V, dropDep)})
 		}
 		return out
 	case schema.KUnion:
@@ -111,7 +117,7 @@ func Normalise(s *schema.Schema, t schema.Type, v Value) Value {
 		if v.Body != nil {
 			for _, b := range d.Branches {
 				if b.Disc == v.Disc {
-					nb := Normalise(s, schema.Type{Named: b.Def.Name}, *v.Body)
+					nb := normalise(s, schema.Type{Named: b.Def.Name}, *v.Body, dropDep)
 					out.Body = &nb
 				}
 			}
@@ -348,4 +354,59 @@ func Reorder(m Value, perm []int) Value {
 		out.Vals[i] = m.Vals[p]
 	}
 	return out
+}
+
+
+// HasSkew reports whether v (a value of the sender's schema `from`) carries a message
+// field that the reader's schema `to` does not know or has marked deprecated.
+func HasSkew(from, to *schema.Schema, t schema.Type, v Value) bool {
+	switch {
+	case t.Array != nil:
+		for _, e := range v.Elems {
+			if HasSkew(from, to, *t.Array, e) {
+				return true
+			}
+		}
+		return false
+	case t.MapV != nil:
+		for _, e := range v.Vals {
+			if HasSkew(from, to, *t.MapV, e) {
+				return true
+			}
+		}
+		return false
+	case t.Prim != "":
+		return false
+	}
+	d, dt := from.Lookup(t.Named), to.Lookup(t.Named)
+	if d == nil || dt == nil {
+		return false
+	}
+	switch d.Kind {
+	case schema.KStruct:
+		for i, f := range d.Fields {
+			if i < len(v.Elems) && HasSkew(from, to, f.Type, v.Elems[i]) {
+				return true
+			}
+		}
+	case schema.KMessage:
+		for _, mf := range v.Fields {
+			fd, fo := msgField(d, mf.Index), msgField(dt, mf.Index)
+			if fd == nil {
+				continue
+			}
+			if fo == nil || fo.Deprecated || HasSkew(from, to, fd.Type, mf.V) {
+				return true
+			}
+		}
+	case schema.KUnion:
+		if v.Body != nil {
+			for _, b := range d.Branches {
+				if b.Disc == v.Disc {
+					return HasSkew(from, to, schema.Type{Named: b.Def.Name}, *v.Body)
+				}
+			}
+		}
+	}
+	return false
 }
